@@ -56,18 +56,65 @@ theorem C04_open_modes (c : Bytes) :
     (∀ pre, openContent .truncate pre = []) := ⟨rfl, rfl, fun _ => rfl⟩
 
 
-/-- Several handles and failing encoders. For every history of appends through any number of
-`FileAppender`s on the same path, encoders that fail after any number of slices, foreign
-`O_APPEND` writes between them, further appenders being built, and restarts: after every single
-operation the file is the plain concatenation, in call order, of what open left, the whole
-acknowledged records and the foreign appends — nothing acknowledged or foreign is overwritten or
-cut, and a failed append leaves no trace. (The model gives every write the kernel's `O_APPEND`
-placement; it is claimed faithful for several handles in append mode only.) Since the `fix:` commit
-9f38f0b this needs no hypothesis about failing encoders. -/
+/-- Several handles, failing encoders, external truncation — the repaired crate, BOTH open modes.
+For every history of appends through any number of `FileAppender`s on the same path, encoders that
+fail after any number of slices, foreign `O_APPEND` writes between them, external truncations of the
+file to length 0, further appenders being built, and restarts: after every single operation the file
+is the plain concatenation, in call order, of what the last open/truncation left, the whole
+acknowledged records and the foreign appends since — nothing acknowledged or foreign is overwritten or
+cut, no hole appears, and a failed append leaves no trace. Every descriptor `build` opens has
+`O_APPEND` (`truncateUsesAppendFlag = true`: since the repair truncate mode opens with `append(true)`
+and truncates explicitly), so the kernel puts every write at the current end of the file — that
+placement is the modelled assumption, the per-descriptor offset of a handle without the flag is
+modelled too (`Handles.commit`, `writeAt`) and is what makes the unrepaired variant fail below. -/
 theorem C04_multi_trace_eq_spec (m : OpenMode) (pre : Option Bytes) (ops : List MOp)
     (hv : validOps 1 ops = true) :
-    Handles.trace m (Handles.init m pre) ops = Spec.expectedTraceM m pre ops :=
-  Handles.trace_eq_fileTraceM m ops (Handles.init m pre) (by intro b hb; simpa [Handles.init] using hb) hv
+    Handles.traceV true m (Handles.init m pre true) ops = Spec.expectedTraceM m pre ops :=
+  Handles.traceV_eq_fileTraceM true m (Or.inr rfl) ops _ (Handles.init_quiet m pre true)
+    (Handles.init_allAppend m pre true (Or.inr rfl)) hv
+
+/-- the model the driver runs against the crate (`Handles.trace`, default flags) is that repaired
+variant, so the same holds of it: all modes, full strength -/
+theorem C04_multi_trace_eq_spec_default (m : OpenMode) (pre : Option Bytes) (ops : List MOp)
+    (hv : validOps 1 ops = true) :
+    Handles.trace m (Handles.init m pre) ops = Spec.expectedTraceM m pre ops := by
+  rw [Handles.trace_eq_traceV]
+  exact C04_multi_trace_eq_spec m pre ops hv
+
+/-- The crate before the repair (`truncateUsesAppendFlag = false`): the same statement restricted,
+visibly, to append mode — the only mode in which its descriptors had `O_APPEND`. -/
+theorem C04_multi_trace_eq_spec_unfixed_partial (pre : Option Bytes) (ops : List MOp)
+    (hv : validOps 1 ops = true) :
+    Handles.traceV false .append (Handles.init .append pre false) ops = Spec.expectedTraceM .append pre ops :=
+  Handles.traceV_eq_fileTraceM false .append (Or.inl rfl) ops _ (Handles.init_quiet .append pre false)
+    (Handles.init_allAppend .append pre false (Or.inl rfl)) hv
+
+/-- … and the full statement is FALSE of the crate before the repair (former finding
+`C04/seq-truncate-private-offset`): a truncate-mode appender acknowledges `[1,2,3]`, the file is
+truncated from outside, the appender acknowledges `[4]` — which lands at the stale offset 3 behind a
+hole of three NUL bytes instead of being the file. -/
+theorem C04_truncate_private_offset_unfixed :
+    ¬ (∀ (m : OpenMode) (pre : Option Bytes) (ops : List MOp), validOps 1 ops = true →
+        Handles.traceV false m (Handles.init m pre false) ops = Spec.expectedTraceM m pre ops) := by
+  intro h
+  have := h .truncate none [.append 0 [[1, 2, 3]] none, .truncate, .append 0 [[4]] none] (by decide)
+  revert this
+  decide
+
+/-- the other faces of the same defect, as tests on samples of the unrepaired variant: a second
+truncate-mode appender (configuration reload overlap) — the older appender's next record `[3]`
+overwrites the second byte of the newer one's acknowledged `[2,2]`; a foreign `>>` append `[7,7]` is
+overwritten by the appender's next record `[5]`. The repaired variant keeps everything. -/
+theorem C04_truncate_private_offset_overwrites_unfixed :
+    Handles.traceV false .truncate (Handles.init .truncate none false)
+      [.append 0 [[1]] none, .build, .append 1 [[2, 2]] none, .append 0 [[3]] none] = [[1], [], [2, 2], [2, 3]] ∧
+    Handles.traceV true .truncate (Handles.init .truncate none true)
+      [.append 0 [[1]] none, .build, .append 1 [[2, 2]] none, .append 0 [[3]] none] = [[1], [], [2, 2], [2, 2, 3]] ∧
+    Handles.traceV false .truncate (Handles.init .truncate none false)
+      [.append 0 [[1]] none, .foreign [7, 7], .append 0 [[5]] none] = [[1], [1, 7, 7], [1, 5, 7]] ∧
+    Handles.traceV true .truncate (Handles.init .truncate none true)
+      [.append 0 [[1]] none, .foreign [7, 7], .append 0 [[5]] none] = [[1], [1, 7, 7], [1, 7, 7, 5]] := by
+  decide
 
 /-- The former defect (`C04/seq-encoder-error-torn`, repaired by 9f38f0b), as a test on a sample of
 the historical semantics `traceUnfixed`: an encoder that failed after its first slice left that
@@ -86,8 +133,10 @@ appends) satisfies:
   `j` has had acknowledged (plus the record `j` has flushed but not yet returned from), every entry
   belongs to a thread, and what a thread has acknowledged is a prefix of its program — so nothing is
   lost, duplicated or reordered;
-* lock held ⇒ the file is the committed whole records followed by a prefix of one record (the
-  holder's), never a mixture. -/
+* lock held by thread `h` ⇒ `h` is inside `append` for the record `r` at the head of its remaining
+  program, and the file is the committed whole records followed by a prefix of THAT record's bytes
+  (while `h` is writing `r`), or exactly the committed records, `r` being the last of them (once `h`
+  has flushed) — never a mixture, never bytes of another thread's record. -/
 theorem C04_schedule_serial (m : OpenMode) (pre : Option Bytes) (progs : List (List Rec)) (sched : List Nat) :
     let s := runSched (CState.init m pre progs) sched
     (s.holder = none → s.w.buf = [] ∧ s.w.disk = openContent m pre ++ s.committed) ∧
@@ -95,7 +144,10 @@ theorem C04_schedule_serial (m : OpenMode) (pre : Option Bytes) (progs : List (L
         ∃ p, progs[j]? = some p ∧ t.acked <+: p ∧
           (s.logOf j = t.acked ∨ ∃ r, t.pc = .flushed r ∧ s.logOf j = t.acked ++ [r])) ∧
     (∀ e ∈ s.log, e.1 < progs.length) ∧
-    (∀ h, s.holder = some h → ∃ r q, q <+: encBytes r ∧ s.w.disk = openContent m pre ++ s.committed ++ q) := by
+    (∀ h, s.holder = some h → ∃ t r tl, s.threads[h]? = some t ∧ t.todo = r :: tl ∧
+        ((∃ dn rest q, t.pc = .writing r dn rest ∧ q <+: encBytes r ∧
+            s.w.disk = openContent m pre ++ s.committed ++ q) ∨
+         (t.pc = .flushed r ∧ s.w.disk = openContent m pre ++ s.committed))) := by
   intro s
   have inv : CInv progs (openContent m pre) s := (CInv.init m pre progs).run sched
   have rng : LogRange progs.length s :=
@@ -122,14 +174,16 @@ theorem C04_schedule_serial (m : OpenMode) (pre : Option Bytes) (progs : List (L
     | writing r dn rest =>
       simp only [hpc] at hbody hl
       obtain ⟨q, hq1, hq2⟩ := hbody
-      refine ⟨r, q, ?_, hq1⟩
+      obtain ⟨tl, htl⟩ := hl.2.1
+      refine ⟨t, r, tl, ht, htl, Or.inl ⟨dn, rest, q, hpc, ?_, hq1⟩⟩
       refine ⟨s.w.buf ++ rest.flatten, ?_⟩
       have hfl : encBytes r = (dn ++ rest).flatten := by rw [← hl.2.2]; simp
       rw [← List.append_assoc, hq2, hfl]
       simp
     | flushed r =>
-      simp only [hpc] at hbody
-      exact ⟨r, [], List.nil_prefix, by simp [hbody.2]⟩
+      simp only [hpc] at hbody hl
+      obtain ⟨tl, htl⟩ := hl.2
+      exact ⟨t, r, tl, ht, htl, Or.inr ⟨hpc, hbody.2⟩⟩
 
 /-- In particular: when all threads have finished, the file is `initial ++` a merge of all the
 threads' programs, each thread's records in its own order. -/
